@@ -268,6 +268,7 @@ func checkC05C(c *Check, L *Loaded) {
 	}
 	r3 := c.Rule("R5.3", "a block is resized or released with the capacity of the object it belongs to", 10)
 	checkReallocProvenance(c, P, r3)
+	checkC05GoSizes(c, L, r3)
 	r4 := c.Rule("R5.4", "in-place changes of a text's byte length keep cap = length + 1", 2)
 	checkCapTruth(c, P, r4)
 
@@ -277,6 +278,12 @@ func checkC05C(c *Check, L *Loaded) {
 	r7 := c.Rule("R5.7", "a concatenation function of the runtime leaves the operand it takes over empty on every path: its buffer is moved into the result or released, then the operand is reset", 3)
 	bind := concatBindings(L)
 	claimed := claimedOperands(L)
+	// also the positions the C side itself treats as taken over, so that a generator that stops copying does not make the instance vanish
+	for f, idxs := range takenOverByC(L, P) {
+		if _, ok := claimed[f]; !ok && len(idxs) > 0 {
+			claimed[f] = idxs[0]
+		}
+	}
 	var fields []string
 	for f := range claimed {
 		fields = append(fields, f)
@@ -502,4 +509,38 @@ func checkFailureValues(c *Check, P *CProgram, r *Rule) {
 		}
 		rec(f.Body, nil)
 	}
+}
+
+// takenOverByC: for every concatenation function the generator binds to a C symbol, the argument positions (over ret, a, b)
+// whose text object the C function moves or resets on some path - derived from the C source alone.
+func takenOverByC(L *Loaded, P *CProgram) map[string][]int {
+	out := map[string][]int{}
+	for field, sym := range concatBindings(L) {
+		if !strings.HasSuffix(field, "concat_IrFunc") {
+			continue
+		}
+		f := P.Funcs[sym]
+		if f == nil {
+			continue
+		}
+		for i, p := range cParamNames(f) {
+			if i == 0 {
+				continue
+			}
+			ends, _ := disposalPaths(f, p)
+			for _, e := range ends {
+				moved := false
+				for _, t := range e.trail {
+					if strings.Contains(t, "ddp_reallocate") || strings.Contains(t, "copied out") || strings.Contains(t, "reset") {
+						moved = true
+					}
+				}
+				if moved {
+					out[field] = append(out[field], i)
+					break
+				}
+			}
+		}
+	}
+	return out
 }
